@@ -197,7 +197,8 @@ pub fn write_float_scientific<const FORMAT: u128>(
     options: &Options,
 ) -> usize {
     // PRECONDITIONS
-    debug_assert!(bytes.len() >= BUFFER_SIZE);
+    // NOTE: The buffer may already be missing the byte of the sign.
+    debug_assert!(bytes.len() + 1 >= BUFFER_SIZE);
 
     // Config options.
     let format = NumberFormat::<{ FORMAT }> {};
@@ -272,7 +273,8 @@ pub fn write_float_nonscientific<const FORMAT: u128>(
     options: &Options,
 ) -> usize {
     // PRECONDITIONS
-    debug_assert!(bytes.len() >= BUFFER_SIZE);
+    // NOTE: The buffer may already be missing the byte of the sign.
+    debug_assert!(bytes.len() + 1 >= BUFFER_SIZE);
 
     // Config options.
     let format = NumberFormat::<{ FORMAT }> {};
